@@ -46,6 +46,11 @@ pub struct FaultRates {
 pub struct ConsumerScript {
     pub with_stats: bool,
     pub stop_after: Option<usize>,
+    /// alternatively: send the stop when this many requests have been seen (any moment of the
+    /// session, not only right after a delivery)
+    pub stop_at_request: Option<u64>,
+    /// the value sent on the stop channel (any message means stop)
+    pub stop_value: bool,
     pub drop_chunks_after: Option<usize>,
     pub drop_stats_after: Option<usize>,
     /// apply the action one scheduling point later
@@ -410,7 +415,8 @@ impl RtWorld {
             }
         }
         let n = self.deliveries.len();
-        let mut due_stop = self.stop_sent_at.is_none() && self.script.stop_after.map(|k| n >= k).unwrap_or(false);
+        let mut due_stop = self.stop_sent_at.is_none()
+            && (self.script.stop_after.map(|k| n >= k).unwrap_or(false) || self.script.stop_at_request.map(|r| self.requests_seen >= r).unwrap_or(false));
         let mut due_drop = self.chunk_rx.is_some() && self.script.drop_chunks_after.map(|k| n >= k).unwrap_or(false);
         let mut due_sdrop = self.stats_rx.is_some() && self.script.drop_stats_after.map(|k| n >= k).unwrap_or(false);
         if (due_stop || due_drop || due_sdrop) && self.script.late_phase && !self.pending_action {
@@ -422,7 +428,7 @@ impl RtWorld {
         }
         if due_stop {
             if let Some(tx) = &self.stop_tx {
-                let _ = tx.send(true);
+                let _ = tx.send(self.script.stop_value);
             }
             self.stop_sent_at = Some((seq, now));
             self.last_event_ms = self.last_event_ms.max(s3sim::EPOCH_MS + now);
@@ -449,6 +455,7 @@ impl RtWorld {
 
     pub fn final_drain(&mut self, core: &mut Core) {
         self.script.stop_after = None;
+        self.script.stop_at_request = None;
         self.script.drop_chunks_after = None;
         self.script.drop_stats_after = None;
         self.script_point(core);
@@ -583,7 +590,9 @@ impl Backend for RtWorld {
         if req.host != s3sim::REALTIME_HOST {
             return s3sim::status_reply(403, None);
         }
-        match &req.kind {
+        // chunk keys have nothing below "SITE/VOLUME/": a '/' delimiter would change nothing
+        let kind = req.kind.without_delimiter();
+        match &kind {
             ReqKind::List { prefix, max_keys } => {
                 let max = max_keys.unwrap_or(1000);
                 let parts: Vec<&str> = prefix.split('/').collect();
@@ -746,7 +755,7 @@ impl Backend for RtWorld {
                     }
                 }
             }
-            ReqKind::Bad(_) => s3sim::status_reply(403, None),
+            ReqKind::Bad(_) | ReqKind::ListDelimited { .. } => s3sim::status_reply(403, None),
         }
     }
 
